@@ -76,6 +76,30 @@ WalkFill ==
   \cup {FillSrc("linear", n, ld, p[1], p[2], I(0)) : n \in 0..2, ld \in 1..3, p \in {<<I(0), I(6)>>, <<R(-1, 2), R(5, 4)>>, <<I(3), I(3)>>}}
   \cup {FillSrc("bound", n, ld, p[1], p[2], p[3]) : n \in 0..2, ld \in 1..3, p \in {<<I(1), I(2), I(3)>>, <<I(-1), R(1, 2), I(4)>>}}
 
+\* decorated descriptions: leading / between / trailing white space and white space around ( : ) -- the denoted sequence is unchanged
+Decos     == {<<2, 2, 2, 2>>, <<1, 3, 1, 1>>, <<4, 4, 4, 4>>, <<5, 5, 5, 5>>, <<1, 2, 5, 1>>, <<6, 6, 6, 6>>, <<3, 2, 3, 3>>, <<1, 2, 2, 1>>, <<1, 2, 8, 1>>, <<7, 7, 7, 7>>}
+DecoSmall == {<<1, 2, 2, 1>>, <<5, 6, 3, 4>>}
+DecoBase ==
+  {Linear("desc", 2, I(0), I(6), 0), Linear("desc", 3, R(1, 2), I(2), 0), Linear("desc", 2, I(0), I(1), 2),
+   Linear("profile", 2, I(0), I(6), 0), Linear("profile", 3, I(-1), R(1, 2), 1),
+   Range(I(0), I(1), R(1, 2), 0), Range(I(0), R(3, 10), R(1, 10), 0), Range(I(2), I(4), R(1, 5), 2), Range(I(0), I(1), R(1, 10), 4),
+   Factor(2, I(10), I(10), I(0), 1), Factor(2, I(3), I(3), I(0), 2), Factor(3, I(2), R(1, 4), I(0), 3), Factor(2, I(2), I(2), I(-5), 4),
+   Factor(2, I(3), I(2), R(7, 2), 5),
+   Boundary("profile", 3, I(-1), I(0), R(5, 2)), Boundary("profile", 2, I(1), I(2), I(3)),
+   Poly("profile", Ints(3), <<I(1), I(0), I(1)>>, <<I(1)>>), Poly("polyapi", Ints(3), <<I(1), I(-2), I(1)>>, <<I(-1), I(1)>>),
+   Poly("profile", Ints(2), <<I(2), I(1)>>, <<>>), Poly("polyapi", Ints(2), <<R(1, 2), I(3)>>, <<R(1, 4)>>),
+   Values("values", Ints(3)), Values("desc", <<R(1, 2), R(-5, 4), I(3)>>), Values("values", <<I(7)>>), Values("desc", <<I(1), R(5, 2), I(-3)>>),
+   Text(Ints(3)), Text(<<R(1, 2), R(-5, 4), I(3)>>), Text(<<I(7)>>), Text(<<>>)}
+  \cup {IterArg(x) : x \in {Linear("desc", 2, I(0), I(6), 0), Range(I(0), I(1), R(1, 2), 0), Range(I(0), R(3, 10), R(1, 10), 0),
+                            Factor(2, I(10), I(10), I(0), 1), Factor(2, I(3), I(2), R(7, 2), 5)}}
+WalkDeco == WithDeco(DecoBase, Decos)
+\* empty description, descriptions of separators only, through every text constructor: not decided (any answer, no fault, replay)
+WalkUnknown == {Unknown(v, k) : v \in {"desc", "values", "string"}, k \in 1..Len(SepTexts)}
+WalkBlank == WithDeco({[kind |-> "unknown", via |-> "values", sep |-> 0]}, {<<1, 2, 1, 1>>, <<2, 2, 3, 1>>, <<5, 2, 6, 1>>})   \* "", "  ", "^ ~^ "
+             \cup {Range(I(0), I(1), R(1, 10), 4)}       \* mpt_iterator_create(""): the default range (blank: DecoBase)
+ExploreDeco == WithDeco({Values("values", Ints(2)), Text(Ints(1)), Text(<<>>)}, DecoSmall)
+               \cup WithDeco({Linear("desc", 2, I(-1), I(1), 0)}, {<<5, 6, 3, 4>>})
+
 WalkIterArg ==
   {IterArg(x) : x \in {y \in WalkLinear : y.via = "desc" /\ y.style = 0}}
   \cup {IterArg(x) : x \in {y \in WalkRange \cup WalkRangeMany : y.style = 0}}
@@ -83,6 +107,7 @@ WalkIterArg ==
 
 WalkAll == WalkIterArg \cup WalkFill \cup WalkLinear \cup WalkRange \cup WalkRangeMany \cup WalkFactor \cup WalkBoundary \cup WalkPoly \cup WalkValues \cup WalkText \cup WalkBuffer
 
-SrcQuick    == WithExplore(ExploreSmall, TRUE) \cup WithExplore(WalkAll, FALSE)
-SrcThorough == WithExplore(ExploreSmall \cup ExploreMore, TRUE) \cup WithExplore(WalkAll \cup WalkRangeMore, FALSE)
+WalkDecorated == WalkDeco \cup WalkUnknown \cup WalkBlank      \* (not part of WalkAll: the extension X19 walks WalkAll with its own consumers)
+SrcQuick    == WithExplore(ExploreSmall \cup ExploreDeco, TRUE) \cup WithExplore(WalkAll \cup WalkDecorated, FALSE)
+SrcThorough == WithExplore(ExploreSmall \cup ExploreDeco \cup ExploreMore, TRUE) \cup WithExplore(WalkAll \cup WalkDecorated \cup WalkRangeMore, FALSE)
 =============================================================================
